@@ -18,7 +18,9 @@ Imports == {"asis", "local", "decoy"}   \* decoy: an unrelated function imports 
 \* preserved", and in its place): a trailing `**extra_kw`, a `**extra_kw` in front of the keyword arguments, one more
 \* keyword argument, a `**extra_map` entry in every dict literal passed to the call; and (C18: several sites on one
 \* line) the expression of the touched statement written twice, as a pair, on the same line
-Args    == {"asis", "kwspread-last", "kwspread-mid", "extra-kw", "dict-spread", "same-line-pair"}
+\* "multiline": a parenthesised comparison / boolean / arithmetic expression of the touched statement is broken over
+\* two lines after its operator (legal only inside the parentheses: a rewrite that drops them must re-join the lines)
+Args    == {"asis", "kwspread-last", "kwspread-mid", "extra-kw", "dict-spread", "same-line-pair", "multiline"}
 
 VARIABLES v, st
 
